@@ -34,12 +34,19 @@ def rows_from_traces(ctx, files, scns, meta):
         run = None
         for ln in open(f):
             if ln.startswith('{"e":"Reset"'):
-                run = json.loads(ln)["run"]
+                run = json.loads(ln)["run"]; final = False
             elif ln.startswith('{"e":"Final"'):
-                fin = json.loads(ln)
+                fin = json.loads(ln); final = True
                 m = by.get(run)
                 if m is not None:
-                    rows.append(dict(i=m["i"], n=m["n"], sched=m["sched"], pers=m["pers"], txs=fin["txs"], pipelined=fin["pipelined"], samearr=not m["sched"].startswith("dc"), fam=list(m["fam"]), whole=m["whole"], run=run))
+                    rows.append(dict(i=m["i"], n=m["n"], sched=m["sched"], pers=m["pers"], txs=fin["txs"], pipelined=fin["pipelined"], samearr=not m["sched"].startswith("dc"), fam=list(m["fam"]), whole=m["whole"], run=run, completed=True))
+            elif ln.startswith('{"e":"End"') and not final and '"san": true' in ln.replace('"san":true', '"san": true'):
+                # the recorder died in this execution (sanitizer abort, crash): there is no result to compare; TLC judges the row as neither
+                # faithful nor invariant instead of the execution silently dropping out of the comparison
+                m = by.get(run)
+                if m is not None:
+                    rows.append(dict(i=m["i"], n=m["n"], sched=m["sched"], pers=m["pers"], txs=[], pipelined=False, samearr=not m["sched"].startswith("dc"), fam=list(m["fam"]), whole=m["whole"], run=run, completed=False))
+                final = True
     rows.sort(key=lambda r: (r["fam"], not r["whole"], r["sched"]))
     ref = {}
     for k, r in enumerate(rows):
